@@ -252,16 +252,18 @@ def «open» (localPort remotePort : U16) (iss : Seq) (mtu : U16) : Except Strin
       snd := { iss := iss, una := iss, nxt := iss + 1 }, rcv := {} }
   tcb.enqueue (((tcb.headerBuilder iss).withSyn).withWnd ({} : Rcv).wnd)
 
-/-- `Tcb::advance_time`.  `retransmission -= delta_time` and `time_wait - delta_time` are
-    checked `Duration` subtractions (each guarded by the comparison just before it). -/
+/-- first half of `Tcb::advance_time`: the retransmission timer.  `retransmission -= delta_time`
+    is a checked `Duration` subtraction (guarded by the comparison just before it). -/
+def advanceRetransmission (s : Tcb) (dt : Nat) : Except String Tcb :=
+  if dt > s.timeouts.retransmission then
+    .ok { s with timeouts.retransmission := RTO,
+                 outgoing.retransmit := s.outgoing.retransmit.map fun t => { t with needsTransmit := true } }
+  else if s.timeouts.retransmission < dt then .error "panic:sub-overflow:advance_time.retransmission"
+  else .ok { s with timeouts.retransmission := s.timeouts.retransmission - dt }
+
+/-- `Tcb::advance_time` (`time_wait - delta_time` is a checked `Duration` subtraction, guarded) -/
 def advanceTime (s : Tcb) (dt : Nat) : M AdvanceTimeResult :=
-  let s1 : Except String Tcb :=
-    if dt > s.timeouts.retransmission then
-      .ok { s with timeouts.retransmission := RTO,
-                   outgoing.retransmit := s.outgoing.retransmit.map fun t => { t with needsTransmit := true } }
-    else if s.timeouts.retransmission < dt then .error "panic:sub-overflow:advance_time.retransmission"
-    else .ok { s with timeouts.retransmission := s.timeouts.retransmission - dt }
-  match s1 with
+  match s.advanceRetransmission dt with
   | .error e => .error e
   | .ok s =>
     match s.timeouts.timeWait with
@@ -333,19 +335,21 @@ def segmentize (maxSegmentLength : Nat) : Nat → Tcb → Nat → Except String 
                         outgoing.retransmit := s.outgoing.retransmit ++ [Transmit.new ⟨header, text⟩] }
       segmentize maxSegmentLength fuel s (queuedBytes + bytes)
 
+/-- the `match self.state { SynSent | SynReceived | Established | CloseWait => { … loop … } }`
+    part of `Tcb::segments` -/
+def segmentizeIfOpen (s : Tcb) : Except String Tcb :=
+  match s.state with
+  | .SynSent | .SynReceived | .Established | .CloseWait =>
+    -- let max_segment_length = (self.mtu - SPACE_FOR_HEADERS) as usize;
+    if s.mtu.toNat < SPACE_FOR_HEADERS then .error "panic:sub-overflow:segments.max_segment_length"
+    else segmentize (s.mtu.toNat - SPACE_FOR_HEADERS) (s.outgoing.text.length + 1) s
+           s.outgoing.queuedBytes
+  | _ => .ok s
+
 /-- `Tcb::segments` -/
 def segments (s : Tcb) : M (List Segment) :=
   let out0 : List Segment := s.outgoing.oneshot.map fun h => ⟨h, []⟩
-  let s := { s with outgoing.oneshot := [] }
-  let s1 : Except String Tcb :=
-    match s.state with
-    | .SynSent | .SynReceived | .Established | .CloseWait =>
-      -- let max_segment_length = (self.mtu - SPACE_FOR_HEADERS) as usize;
-      if s.mtu.toNat < SPACE_FOR_HEADERS then .error "panic:sub-overflow:segments.max_segment_length"
-      else segmentize (s.mtu.toNat - SPACE_FOR_HEADERS) (s.outgoing.text.length + 1) s
-             s.outgoing.queuedBytes
-    | _ => .ok s
-  match s1 with
+  match segmentizeIfOpen { s with outgoing.oneshot := [] } with
   | .error e => .error e
   | .ok s =>
     let out := out0 ++ (s.outgoing.retransmit.filter (·.needsTransmit)).map (·.segment)
